@@ -200,7 +200,7 @@ theorem newParser_osap_matchLens {raw : Cfg} {s0 : Parser} (h0 : newParser .OSAP
   · rename_i hv
     cases h0
     simp only [verify, Bool.and_eq_true, decide_eq_true_eq] at hv
-    obtain ⟨⟨-, h1, h2⟩, -⟩ := hv
+    obtain ⟨⟨⟨-, h1, h2⟩, -⟩, -⟩ := hv
     refine ⟨rfl, ?_, ?_⟩ <;> simp only [] <;> omega
   · cases h0
 
